@@ -599,6 +599,14 @@ def judge(case):
             getattr(lab, "op_" + name)(*op[1:])
         except CheckFailure as f:
             fails.append((f.bucket, f.detail))
+    try:
+        raw = bytes(lab.view)
+        exp = bytes(lab.model[lab.base - PAGE:lab.base - PAGE + lab.nodes[0].size])
+        if raw != exp:
+            fails.append(("raw:%s" % lab.nodes[0].kind, "bytes(view) = %s, the view's extent holds %s (type %r)"
+                          % (raw.hex(), exp.hex(), spec)))
+    except Exception as e:
+        fails.append(("raw:raises:%s" % type(e).__name__, "bytes(view) of %r: %r" % (spec, e)))
     return fails, stats
 
 
@@ -740,7 +748,7 @@ class C34(Check):
 
     def run_shard(self, tier, seed, shard, nshards):
         res = ShardResult()
-        n = 1500 if tier == "quick" else 25000
+        n = 1500 if tier == "quick" else 16000
 
         def one(t):
             case = to_case(t)
